@@ -6,7 +6,8 @@
   run: the bit-field extraction of `FrameParser.parse`, its `== 126` / `== 127` branches, the
   `> 0x7fffffffffffffff` test, `Frame.validate` (for `Frame` and for `CompressedFrame`),
   `validate_reserved_bits`, `is_control`, `is_reserved`, and the control-length test the repaired
-  parser applies after `frame.validate()` — in the order of the source.  The theorems state that
+  parser applies after `frame.validate()` — in the order of the source —, and the mask test of
+  `ClientFrameParser.on_frame`.  The theorems state that
   `Core.resume` / `gotLength` / `gotMask` / `validateFrame` compute exactly these.
   Theorems only; helpers are in `Proofs/GenTie`.
 -/
@@ -141,6 +142,21 @@ theorem gen_noValidate (c : Bool) (fin r1 r2 r3 op maskBit len : Nat) :
      else parseChecksFrame false fin r1 r2 r3 op maskBit len) = parseTooLarge len := by
   cases c <;> simp only [parseChecksCompressed, parseChecksFrame, parseTooLarge] <;>
     gen_branches <;> gen_close
+
+/-- `ClientFrameParser.on_frame`: a masked frame from the server is a ProtocolError, raised when
+    the frame is complete (`Core.frameDone`), before `FrameParser.on_frame` runs; an unmasked
+    frame is handed on -/
+theorem gen_maskGuard (v : Variant) (p : PState) (f : Frame) :
+    match clientOnFrameGuard f.mask with
+    | .error e => frameDone v p f = .error (exnOf e)
+    | .ok _ => ∃ p', frameDone v p f = .ok (p', some (.frame f)) := by
+  unfold clientOnFrameGuard frameDone
+  cases f.mask
+  · exact ⟨_, rfl⟩
+  · simp [exnOf]
+
+example : clientOnFrameGuard true = .error ⟨"ProtocolError", "server sent masked frame"⟩ := by decide
+example : clientOnFrameGuard false = .ok () := by decide
 
 /-- the order of the checks, spelled out on one input that violates all of them at once, and on
     inputs that violate all but the earlier ones -/
